@@ -236,8 +236,9 @@ impl ProgressDrawTarget {
         }
     }
 
-    pub(crate) fn adjust_last_line_count(&mut self, adjust: LineAdjust) {
-        self.kind.adjust_last_line_count(adjust);
+    /// Returns the number of lines the adjustment actually covers
+    pub(crate) fn adjust_last_line_count(&mut self, adjust: LineAdjust) -> VisualLines {
+        self.kind.adjust_last_line_count(adjust)
     }
 }
 
@@ -264,7 +265,10 @@ enum TargetKind {
 
 impl TargetKind {
     /// Adjust `last_line_count` such that the next draw operation keeps/clears additional lines
-    fn adjust_last_line_count(&mut self, adjust: LineAdjust) {
+    ///
+    /// Returns the number of lines the adjustment covers: only lines that were painted can be
+    /// kept (a frame taller than the terminal is cut off).
+    fn adjust_last_line_count(&mut self, adjust: LineAdjust) -> VisualLines {
         let last_line_count = match self {
             Self::Term {
                 last_line_count, ..
@@ -272,12 +276,19 @@ impl TargetKind {
             Self::TermLike {
                 last_line_count, ..
             } => last_line_count,
-            _ => return,
+            _ => return VisualLines::default(),
         };
 
         match adjust {
-            LineAdjust::Clear(count) => *last_line_count = last_line_count.saturating_add(count),
-            LineAdjust::Keep(count) => *last_line_count = last_line_count.saturating_sub(count),
+            LineAdjust::Clear(count) => {
+                *last_line_count = last_line_count.saturating_add(count);
+                count
+            }
+            LineAdjust::Keep(count) => {
+                let kept = Ord::min(*last_line_count, count);
+                *last_line_count = last_line_count.saturating_sub(kept);
+                kept
+            }
         }
     }
 }
